@@ -18,6 +18,12 @@ FLAVOUR = os.environ.get('VERIF_FLAVOUR', 'asan')
 HEAD = gen_xslt.HEAD
 GOOD_XSL = (HEAD % '') + '<xsl:template match="/"><good n="{count(//*)}"><xsl:for-each select="//*"><xsl:sort select="name()"/><i><xsl:number level="any"/><xsl:value-of select="name()"/></i></xsl:for-each></good></xsl:template></xsl:stylesheet>'
 GOOD_XML = '<doc><a x="1"><b/>t</a><c/></doc>'
+# the follow-up transformation after every case: number and text sorts with two keys over more nodes than the hostile documents
+# have (state that a failed transformation leaves in the sorter, the counters or the key tables shows here), numbering, a key
+FOLLOW_XML = '<doc>' + ''.join('<i v="%d" w="%s"><j/></i>' % ((k * 37) % 101, 'abcdefghij'[(k * 7) % 10]) for k in range(90)) + '<a x="1"><b/>t</a><c/></doc>'
+FOLLOW_XSL = ((HEAD % '') + '<xsl:key name="fk" match="i" use="@w"/><xsl:template match="/"><good n="{count(//*)}" k="{count(key(\'fk\',\'c\'))}">'
+              '<xsl:for-each select="//i"><xsl:sort select="@v mod 7" data-type="number" order="descending"/><xsl:sort select="@w"/><xsl:sort select="@v" data-type="number"/><xsl:value-of select="concat(@v,@w,\' \')"/></xsl:for-each>'
+              '<xsl:for-each select="//*"><xsl:sort select="name()"/><i><xsl:number level="any"/><xsl:value-of select="name()"/></i></xsl:for-each></good></xsl:template></xsl:stylesheet>')
 GOOD_OUT = None
 
 HOSTILE_NUMBERS = ['1e308', '1e309', '-1e308', '1e-320', '0.1e-400', '9' * 40, '9' * 120, '9' * 400, '0.' + '0' * 350 + '1', '1 div 0', '-1 div 0', '0 div 0', '-0', '2147483648', '-2147483649',
@@ -27,7 +33,9 @@ XPATH_FRAGMENTS = ['substring(%s, %s, %s)', 'format-number(%s, %s)', 'translate(
                    'concat(%s, %s)', 'sum(%s)', 'id(%s)', 'key(%s, %s)', 'document(%s)', 'lang(%s)', 'contains(%s, %s)', 'normalize-space(%s)', 'boolean(%s)', 'not(%s)', '(%s)[%s]', '%s | %s',
                    '%s mod %s', '%s div %s', '- %s', '%s = %s', '%s < %s', 'count(%s)', 'name(%s)', 'generate-id(%s)', 'system-property(%s)', 'unparsed-entity-uri(%s)', 'element-available(%s)',
                    'function-available(%s)', 'string(%s)', 'starts-with(%s, %s)', 'local-name(%s)', 'namespace-uri(%s)', 'position() = %s', 'last() - %s', '//*[%s]', 'ancestor::*[%s]/@*[%s]',
-                   "format-number(%s, '#,##0.00;(#)')", "format-number(%s, '" + '#' * 300 + "')", "format-number(%s, '0.' + " + "'0'" + ")"]
+                   "format-number(%s, '#,##0.00;(#)')", "format-number(%s, '" + '#' * 300 + "')", "format-number(%s, '0.' + " + "'0'" + ")",
+                   # run-time errors, also ones that only the last / a middle node raises (state built for the nodes before it is left behind)
+                   "key('nokey', %s)", "%s + count(self::*[not(following::*)][key('nokey', 'x')])", "%s + count(self::*[count(preceding::*) = 2][key('nokey', 'x')])"]
 
 
 def hostile_xpath(r, depth=0):
@@ -276,7 +284,7 @@ def case(ctx, idx, res):
     if t is None or ctx.cache.get('drv') is not d or not d.alive():
         t = ctx.cache['t'] = d.call(cmd='tnew')['t'].decode()
         ctx.cache['drv'] = d
-        ctx.cache['good'] = d.call(cmd='transform', t=t, src='stream', sty='stream', tgt='stream', xml=GOOD_XML, xsl=GOOD_XSL).get('out')
+        ctx.cache['good'] = d.call(cmd='transform', t=t, src='stream', sty='stream', tgt='stream', xml=FOLLOW_XML, xsl=FOLLOW_XSL).get('out')
         ctx.cache['since'] = 0
     kind = r.choice(['mutated-stylesheet', 'mutated-stylesheet', 'mutated-document', 'hostile-xpath-in-stylesheet', 'hostile-xpath-in-stylesheet', 'xpath-entry', 'xpath-entry', 'param', 'deep-document', 'deep-stylesheet',
                      'capi', 'garbage', 'serializer-garbage', 'hostile-uri', 'hostile-uri', 'hostile-attribute', 'hostile-attribute', 'hostile-attribute', 'integer-conversion', 'nesting', 'nesting'])
@@ -296,7 +304,8 @@ def case(ctx, idx, res):
             e = hostile_xpath(r).replace('&', '&amp;').replace('<', '&lt;').replace('"', '&quot;')
             where = r.choice(['<xsl:value-of select="%s"/>', '<xsl:for-each select="%s">x</xsl:for-each>', '<xsl:if test="%s">y</xsl:if>', '<a b="{%s}"/>', '<xsl:copy-of select="%s"/>',
                               '<xsl:number value="%s" format="1"/>', '<xsl:number value="%s" format="a" grouping-separator="," grouping-size="3"/>', '<xsl:apply-templates select="%s" mode="down"/>',
-                              '<xsl:for-each select="//*"><xsl:sort select="%s" data-type="number"/>z</xsl:for-each>', '<xsl:variable name="v" select="%s"/><xsl:value-of select="$v"/>',
+                              '<xsl:for-each select="//*"><xsl:sort select="%s" data-type="number"/>z</xsl:for-each>', '<xsl:for-each select="//*"><xsl:sort select="%s"/>z</xsl:for-each>',
+                              '<xsl:for-each select="//*"><xsl:sort select="name()"/><xsl:sort select="%s" data-type="number"/>z</xsl:for-each>', '<xsl:variable name="v" select="%s"/><xsl:value-of select="$v"/>',
                               '<xsl:element name="{%s}"/>', '<xsl:attribute name="{%s}">v</xsl:attribute>', '<xsl:processing-instruction name="{%s}">v</xsl:processing-instruction>',
                               '<xsl:message><xsl:value-of select="%s"/></xsl:message>'])
             xsl = (HEAD % '') + '<xsl:param name="gp" select="1"/><xsl:key name="k" match="*" use="name()"/><xsl:template match="/"><out>%s</out></xsl:template></xsl:stylesheet>' % (where % e)
@@ -442,7 +451,7 @@ def case(ctx, idx, res):
         # monitor (b): the transformer is still usable
         ctx.cache['since'] += 1
         if kind not in ('xpath-entry', 'capi', 'serializer-garbage'):
-            rp = d.call(cmd='transform', t=t, src='stream', sty='stream', tgt='stream', xml=GOOD_XML, xsl=GOOD_XSL)
+            rp = d.call(cmd='transform', t=t, src='stream', sty='stream', tgt='stream', xml=FOLLOW_XML, xsl=FOLLOW_XSL)
             res.evals += 1
             if rp.get('status') != b'0' or rp.get('out') != ctx.cache['good']:
                 res.viol('unusable-after|%s' % kind, 'after a %s case the same transformer no longer performs a known-good transformation: status %s, %r' % (kind, rp.get('status'), (rp.get('err') or rp.get('out') or b'')[:200]), payload)
